@@ -329,6 +329,15 @@ impl<'a> Machine<'a> {
 
   fn call(&mut self, f: &FunctionName, args: Vec<i32>, depth: usize) -> Result<i32, Stop> {
     let fname = f.fn_name.as_str(self.heap);
+    if f.type_name == TypeNameId::STR && fname == "fromInt" {
+      // strings are only ever produced by Str.fromInt and consumed by Process.println in the
+      // generated sources: the string is represented by the integer it prints
+      return Ok(args.last().copied().unwrap_or(0));
+    }
+    if f.type_name == TypeNameId::PROCESS && fname == "println" {
+      self.lines.push(args.last().copied().unwrap_or(0).to_string());
+      return Ok(0);
+    }
     if fname == "print" {
       self.lines.push(args.iter().map(|a| a.to_string()).collect::<Vec<_>>().join(" "));
       return Ok(0);
@@ -469,10 +478,14 @@ impl Outcome {
 }
 
 fn run_main(heap: &Heap, functions: &[Function], args: &[i32], limit: u64) -> Outcome {
+  run_entry(heap, functions, args, limit, "f0")
+}
+
+fn run_entry(heap: &Heap, functions: &[Function], args: &[i32], limit: u64, entry: &str) -> Outcome {
   let mut m = Machine { heap, functions, lines: Vec::new(), steps: 0, limit };
-  let main = functions.iter().find(|f| f.name.fn_name.as_str(heap) == "f0");
+  let main = functions.iter().find(|f| f.name.fn_name.as_str(heap) == entry);
   let end = match main {
-    None => Err(Stop::Bad("main function f0 disappeared".into())),
+    None => Err(Stop::Bad(format!("entry function {entry} disappeared"))),
     Some(f) => {
       let mut a = args.to_vec();
       a.resize(f.parameters.len(), 0);
@@ -543,6 +556,106 @@ fn parse_args(s: &str) -> Vec<Vec<i32>> {
 
 const BEFORE_LIMIT: u64 = 60_000;
 
+/// Compiles one samlang module through the real front end (parser, checker, HIR lowering,
+/// generics specialisation, type dedup, constant-parameter elimination, tail-recursion rewrite).
+fn compile_source(heap: &mut Heap, text: &str) -> Result<Sources, String> {
+  let mut error_set = samlang_errors::ErrorSet::new();
+  let mr = heap.alloc_module_reference_from_string_vec(vec!["Demo".to_string()]);
+  let parsed = samlang_parser::parse_source_module_from_text(text, mr, heap, &mut error_set);
+  let mut parsed_sources = HashMap::new();
+  parsed_sources.insert(mr, parsed);
+  let checked = samlang_checker::type_check_sources(&parsed_sources, &mut error_set).0;
+  if error_set.has_errors() {
+    let handles = HashMap::from([(mr, text.to_string())]);
+    return Err(error_set.pretty_print_error_messages(heap, &handles).replace('\n', " / "));
+  }
+  Ok(samlang_compiler::compile_sources_to_mir(heap, &checked))
+}
+
+fn apply_pass_sources(heap: &mut Heap, src: &Sources, pass: &str, cfg: u32) -> Result<Vec<Function>, String> {
+  let functions = src.functions.clone();
+  let rebuilt = |fs: Vec<Function>| Sources {
+    symbol_table: SymbolTable::new(),
+    global_variables: src.global_variables.clone(),
+    closure_types: src.closure_types.clone(),
+    type_definitions: src.type_definitions.clone(),
+    main_function_names: src.main_function_names.clone(),
+    functions: fs,
+  };
+  let r = catch_unwind(AssertUnwindSafe(|| match pass {
+    "all" => samlang_optimization::optimize_sources(heap, rebuilt(functions), &config(cfg)).functions,
+    "inline" | "unused" => verif_hooks::run_pass_sources(pass, heap, rebuilt(functions)).expect("known pass").functions,
+    _ => {
+      let mut fs = functions;
+      let counter = heap.create_temp_counter();
+      for f in fs.iter_mut() {
+        assert!(verif_hooks::run_pass(pass, f, &counter, &config(cfg)), "unknown pass");
+      }
+      heap.sync_temp_counter(&counter);
+      fs
+    }
+  }));
+  r.map_err(|e| panic_msg(&e))
+}
+
+/// `srcprog PASS CFG | a,b;… | <hex of samlang source>`: entry function is `run`.
+fn srcprog_line(rest: &str, show: bool) -> String {
+  let parts: Vec<&str> = rest.splitn(3, '|').collect();
+  if parts.len() != 3 {
+    return "bad-line".to_string();
+  }
+  let head: Vec<&str> = parts[0].split_whitespace().collect();
+  if head.len() != 2 {
+    return "bad-line".to_string();
+  }
+  let (pass, cfg) = (head[0], head[1].parse::<u32>().unwrap_or(31));
+  let text = unhex_str(parts[2].trim());
+  let mut heap = Heap::new();
+  let src = match catch_unwind(AssertUnwindSafe(|| compile_source(&mut heap, &text))) {
+    Ok(Ok(s)) => s,
+    Ok(Err(e)) => return format!("bad-program {e}"),
+    Err(e) => return format!("front-end-panic {}", panic_msg(&e)),
+  };
+  let before = src.functions.clone();
+  let after = match apply_pass_sources(&mut heap, &src, pass, cfg) {
+    Ok(f) => f,
+    Err(m) => return format!("panic {}", m.replace('\n', " ")),
+  };
+  let t = &src.symbol_table;
+  let pr = |fs: &[Function]| fs.iter().map(|f| f.debug_print(&heap, t)).collect::<Vec<_>>().join("\n");
+  let (tb, ta) = (pr(&before), pr(&after));
+  if show {
+    return format!("BEFORE: {} AFTER: {}", tb.replace('\n', " ; "), ta.replace('\n', " ; "));
+  }
+  compare_runs(&heap, &before, &after, parts[1], "main", tb != ta)
+}
+
+fn compare_runs(heap: &Heap, before: &[Function], after: &[Function], args: &str, entry: &str, changed: bool) -> String {
+  let mut args = parse_args(args);
+  if args.is_empty() {
+    args.push(Vec::new());
+  }
+  let (mut traps, mut timeouts, mut lines, mut compared) = (0, 0, 0, 0);
+  for (i, a) in args.iter().enumerate() {
+    let ob = run_entry(heap, before, a, BEFORE_LIMIT, entry);
+    if ob.end == Err(Stop::Timeout) {
+      timeouts += 1;
+      continue;
+    }
+    let oa = run_entry(heap, after, a, ob.steps * 20 + 50_000, entry);
+    compared += 1;
+    if matches!(ob.end, Err(Stop::Trap(_))) {
+      traps += 1;
+    }
+    lines += ob.lines.len();
+    if ob.lines != oa.lines || ob.end != oa.end {
+      let a_s = a.iter().map(|x| x.to_string()).collect::<Vec<_>>().join(",");
+      return format!("diff arg={i} args={a_s} before={} after={}", ob.show(), oa.show());
+    }
+  }
+  format!("ok compared={compared} traps={traps} timeouts={timeouts} lines={lines} changed={}", changed as u8)
+}
+
 fn prog_line(rest: &str, show: bool) -> String {
   let parts: Vec<&str> = rest.splitn(3, '|').collect();
   if parts.len() != 3 {
@@ -566,29 +679,7 @@ fn prog_line(rest: &str, show: bool) -> String {
   if show {
     return format!("BEFORE: {} AFTER: {}", tb.replace('\n', " ; "), ta.replace('\n', " ; "));
   }
-  let mut args = parse_args(parts[1]);
-  if args.is_empty() {
-    args.push(Vec::new());
-  }
-  let (mut traps, mut timeouts, mut lines, mut compared) = (0, 0, 0, 0);
-  for (i, a) in args.iter().enumerate() {
-    let ob = run_main(&heap, &before, a, BEFORE_LIMIT);
-    if ob.end == Err(Stop::Timeout) {
-      timeouts += 1;
-      continue;
-    }
-    let oa = run_main(&heap, &after, a, ob.steps * 20 + 50_000);
-    compared += 1;
-    if matches!(ob.end, Err(Stop::Trap(_))) {
-      traps += 1;
-    }
-    lines += ob.lines.len();
-    if ob.lines != oa.lines || ob.end != oa.end {
-      let a_s = a.iter().map(|x| x.to_string()).collect::<Vec<_>>().join(",");
-      return format!("diff arg={i} args={a_s} before={} after={}", ob.show(), oa.show());
-    }
-  }
-  format!("ok compared={compared} traps={traps} timeouts={timeouts} lines={lines} changed={}", (tb != ta) as u8)
+  compare_runs(&heap, &before, &after, parts[1], "f0", tb != ta)
 }
 
 // ---------------------------------------------------------------------------------------------
@@ -777,6 +868,12 @@ fn main() {
   for_each_line(|line| {
     if let Some(rest) = line.strip_prefix("prog ") {
       return catch_unwind(AssertUnwindSafe(|| prog_line(rest, false))).unwrap_or_else(|e| format!("harness-panic {}", panic_msg(&e)));
+    }
+    if let Some(rest) = line.strip_prefix("srcprog ") {
+      return catch_unwind(AssertUnwindSafe(|| srcprog_line(rest, false))).unwrap_or_else(|e| format!("harness-panic {}", panic_msg(&e)));
+    }
+    if let Some(rest) = line.strip_prefix("srcshow ") {
+      return catch_unwind(AssertUnwindSafe(|| srcprog_line(rest, true))).unwrap_or_else(|e| format!("harness-panic {}", panic_msg(&e)));
     }
     if let Some(rest) = line.strip_prefix("show ") {
       return catch_unwind(AssertUnwindSafe(|| prog_line(rest, true))).unwrap_or_else(|e| format!("harness-panic {}", panic_msg(&e)));
